@@ -111,7 +111,7 @@ static void run_mk(vrt::Exec& x)
                     } else r = -1;
                 } else if (op == 4) {
                     if constexpr (timedM<M>) {
-                        auto h = A->try_lock_shared_for(d);
+                        auto h = (tid % 2) ? A->try_lock_shared_for(d) : A->try_lock_shared_until(std::chrono::steady_clock::now() + d);
                         if (h) {
                             vrt::log_ev("hget", "cell", 1, 0);
                             r = h->read();
